@@ -1,4 +1,5 @@
 import XrlC06.Lemmas.Begin
+import XrlC06.Lemmas.Fixed
 import XrlC06.Gen.Table
 /-!
 # C06 — compound quantities follow the mass-fraction mixture rule
@@ -21,25 +22,28 @@ set_option linter.unusedVariables false
 /-! ## 1. The generated shape table (re-extracted from the clang AST on every run) -/
 
 /-- the argument list a `_CP` function must forward: the element, then its own parameters between `compound` and
-`error` in order, then the caller's slot -/
-def forwarded (pnames : List String) : List String :=
-  ["Elements[i]"] ++ (pnames.drop 1).dropLast ++ ["error"]
+`error` in order, then the slot (the caller's, or — after the proposed repair — the local one) -/
+def forwarded (pnames : List String) (slotArg : String) : List String :=
+  ["Elements[i]"] ++ (pnames.drop 1).dropLast ++ [slotArg]
 
-def entryConforms (e : Gen.CpEntry) : Bool :=
+def entryConforms (slotArg : String) (e : Gen.CpEntry) : Bool :=
   e.name == e.callee ++ "_CP" && e.ret == "double" &&
   e.ptypes == ["const char *"] ++ List.replicate (e.ptypes.length - 2) "double" ++ ["xrl_error **"] &&
   e.pnames.head? == some "compound" && e.pnames.getLast? == some "error" && e.pnames.length == e.ptypes.length &&
-  e.args == forwarded e.pnames && e.weight == "massFractions[i]" && e.tmpl == 0
+  e.args == forwarded e.pnames slotArg && e.weight == "massFractions[i]" && e.tmpl == 0
 
 /-- every `X_CP` of cs_cp.c calls `X`, forwards its arguments in order, multiplies by `massFractions[i]`, uses template 0;
 and the functions defined are exactly the 21 of the property, each once -/
 theorem cp_table_conforms :
-    Gen.cpTable.all entryConforms = true ∧ Gen.cpTable.map (·.callee) = cpFunctions := by
+    Gen.cpTable.all (entryConforms (slotArgOf Gen.cpTemplates)) = true ∧ Gen.cpTable.map (·.callee) = cpFunctions := by
   decide +kernel
 
 /-- all 21 expanded bodies are the same template, and it is, line by line, the one `CP.cpOf`/`CP.cpLoop` mirror:
-formula lookup first, NIST second, UNKNOWN_COMPOUND, the loop with `tmp == 0.0 → rv = 0.0; break`, the two frees -/
-theorem cp_template_conforms : Gen.cpTemplates = [expectedCpTemplate] := by
+formula lookup first, NIST second, UNKNOWN_COMPOUND, the loop with `tmp == 0.0 → rv = 0.0; break`, the two frees —
+or, line by line, the body after the proposed repair C06-1 that `CP.cpOfFixed`/`CP.cpLoopFixed` mirror (the check runs the
+model with the switch the AST shows) -/
+theorem cp_template_conforms :
+    Gen.cpTemplates = [expectedCpTemplate] ∨ Gen.cpTemplates = [expectedCpTemplateFixed] := by
   decide +kernel
 
 /-- the four refractive-index bodies are, line by line, the ones `CP.refrReOf`, `refrImOf`, `refrOf`, `refr2Of` mirror -/
@@ -118,14 +122,25 @@ theorem cp_formula_precedence (p : Parsed ℝ) (nist nist' : Option (Nist ℝ)) 
 /-- … and the catalogue is used exactly when the parser rejected the name -/
 theorem cp_nist_fallback (n : Nist ℝ) : resolve (none : Option (Parsed ℝ)) (some n) = .nist n := rfl
 
-/-- THE CORNER THE CODE REALLY HAS.  The full statement "all elemental calls succeed ⇒ the result is Σ w_i·v_i" … -/
-def cp_mixture_full : Prop :=
-  ∀ (f : Int → Slot → M (ℝ × Slot)) (r : Resolved ℝ) (els : Els ℝ) (v : Int → ℝ) (error : Slot) (live : Nat),
-    r.elements = some els → (∀ p ∈ els, f p.1 error = .ok (v p.1, error)) →
-    cpOf r f error live = .ok ((mixture els v, error), live)
+/-- an implementation of the shared `_CP` body -/
+abbrev Impl := Resolved ℝ → (Int → Slot → M (ℝ × Slot)) → Slot → Nat → M ((ℝ × Slot) × Nat)
 
-/-- … is false for the code: a successful elemental value with `v_i·w_i = 0` makes the call return 0 WITHOUT an error,
-dropping what the other elements contribute (`tmp == 0.0 → rv = 0.0; break`, cs_cp.c:48-51). -/
+/-- THE PROPERTY AT FULL STRENGTH, first clause: "all elemental calls succeed ⇒ the result is Σ w_i·v_i" … -/
+def MixtureFull (impl : Impl) : Prop :=
+  ∀ (f : Int → Slot → M (ℝ × Slot)) (r : Resolved ℝ) (els : Els ℝ) (v : Int → ℝ) (error : Slot) (live : Nat),
+    error.isFull = false → r.elements = some els →
+    (∀ p ∈ els, ∀ s : Slot, s.isFull = false → f p.1 s = .ok (v p.1, s)) →
+    impl r f error live = .ok ((mixture els v, error), live)
+
+/-- … second clause: "an element for which the elemental function fails makes the compound call fail" -/
+def FailsFull (impl : Impl) : Prop :=
+  ∀ (f : Int → Slot → M (ℝ × Slot)) (r : Resolved ℝ) (els : Els ℝ) (error : Slot) (live : Nat),
+    error.isFull = false → (∀ Z, Contract (f Z)) → r.elements = some els →
+    (∃ p ∈ els, ∀ s : Slot, s.isFull = false → ∃ e, FailsWith (f p.1 s) s e) →
+    Fails (val (impl r f error live)) error
+
+/-- THE CORNER THE CODE REALLY HAS: a successful elemental value with `v_i·w_i = 0` makes the call return 0 WITHOUT an
+error, dropping what the other elements contribute (`tmp == 0.0 → rv = 0.0; break`, cs_cp.c:48-51). -/
 theorem cp_zero_product_witness :
     cpOf (.formula ⟨[(1, (0.5 : ℝ)), (8, 0.5)], 4⟩) (fun Z s => .ok (if Z = 1 then 0 else 3, s)) Slot.empty 0
       = .ok ((0, Slot.empty), 0) ∧
@@ -134,12 +149,30 @@ theorem cp_zero_product_witness :
   · simp [cpOf, Resolved.elements, Resolved.alloc, Resolved.release, cpLoop, zero_lit]
   · simp [mixture]; norm_num
 
-theorem cp_mixture_full_fails : ¬ cp_mixture_full := by
+/-- the first clause is false for the code as it is (not reachable through the real lookups and elemental functions as
+long as mass fractions are positive and a zero elemental value is zero for every element: see the report) -/
+theorem cp_mixture_full_fails : ¬ MixtureFull cpOf := by
   intro h
   have h1 := h (fun Z s => .ok (if Z = 1 then 0 else 3, s)) (.formula ⟨[(1, (0.5 : ℝ)), (8, 0.5)], 4⟩)
-    [(1, 0.5), (8, 0.5)] (fun Z => if Z = 1 then 0 else 3) Slot.empty 0 rfl (by intro p hp; rfl)
+    [(1, 0.5), (8, 0.5)] (fun Z => if Z = 1 then 0 else 3) Slot.empty 0 rfl rfl (by intro p hp s hs; rfl)
   rw [cp_zero_product_witness.1, cp_zero_product_witness.2] at h1
   norm_num at h1
+
+/-- the second clause is false for the code as it is, and this one IS reachable (known finding `cs_cp.c:48-51`):
+`DCSP_Rayl_CP("MdH", 1.0, π/2, 0)` — hydrogen's polarised Rayleigh cross section is exactly 0 in that direction, the loop
+stops there, mendelevium (no data) is never asked, and the call returns 0 with no error -/
+theorem cp_fails_full_fails : ¬ FailsFull cpOf := by
+  intro h
+  have hc : ∀ Z, Contract ((fun (Z : Int) (s : Slot) =>
+      if Z = 101 then (.ok (0.0, s.withErr ⟨1, "Z out of range"⟩) : M (ℝ × Slot)) else .ok (0, s)) Z) := by
+    intro Z s hs
+    by_cases hz : Z = 101
+    · right; exact ⟨⟨1, "Z out of range"⟩, by decide, by decide, by simp [hz]⟩
+    · left; exact ⟨0, by simp [hz]⟩
+  have h1 := h _ (.formula ⟨[(1, (0.004 : ℝ)), (101, 0.996)], 4⟩) [(1, 0.004), (101, 0.996)] Slot.empty 0 rfl hc rfl
+    ⟨(101, 0.996), by simp, fun s hs => ⟨⟨1, "Z out of range"⟩, by decide, by decide, by simp⟩⟩
+  obtain ⟨e, _, _, h2⟩ := h1
+  simp [val, cpOf, Resolved.elements, Resolved.alloc, Resolved.release, cpLoop, zero_lit, Except.map, Slot.withErr] at h2
 
 /-- the general form of the corner: first element with a zero product, succeeding — value 0, no error, heap as found -/
 theorem cp_zero_product (r : Resolved ℝ) (pre post : Els ℝ) (Z : Int) (w x : ℝ) (hr : r.elements = some (pre ++ (Z, w) :: post))
@@ -212,6 +245,59 @@ example : ∃ x, cp (none : Option (Parsed ℝ)) (some ⟨[(1, 0.5), (8, 0.5)], 
   by_cases h : Z = 8
   · right; exact ⟨⟨1, "no data"⟩, by decide, by decide, by simp [h]⟩
   · left; exact ⟨3, by simp [h]⟩
+
+/-! ### after the proposed repair (notes/proposed_fixes/C06-1.diff): both clauses hold at full strength -/
+
+/-- repaired body: every element succeeds ⇒ `Σ w_i·v_i`, zero values included -/
+theorem cp_mixture_full_fixed : MixtureFull cpOfFixed := by
+  intro f r els v error live he hr hf
+  unfold cpOfFixed
+  simp only [hr, cpLoopFixed_value f error v els _ (fun p hp => hf p hp Slot.empty rfl), bind_ok, pure_eq_ok, release_alloc,
+    zero_lit, zero_add]
+
+/-- repaired body: the first failing element fails the compound call with its own error, whatever came before -/
+theorem cp_element_fails_fixed (he : error.isFull = false) (r : Resolved ℝ) (pre post : Els ℝ) (Z : Int) (w : ℝ)
+    (hr : r.elements = some (pre ++ (Z, w) :: post)) (v : Int → ℝ)
+    (hpre : ∀ p ∈ pre, f p.1 Slot.empty = .ok (v p.1, Slot.empty)) (e : Err) (hZ : FailsWith (f Z Slot.empty) Slot.empty e) :
+    cpOfFixed r f error live = .ok ((0, error.withErr e), live) := by
+  unfold cpOfFixed
+  simp only [hr, cpLoopFixed_stop f error he v Z w 0 e post pre _ hpre (fw_eq0 hZ), bind_ok, pure_eq_ok, release_alloc]
+
+example : cpOfFixed (.formula ⟨[(1, (0.004 : ℝ)), (101, 0.996)], 4⟩)
+    (fun Z s => if Z = 101 then .ok (0.0, s.withErr ⟨1, "Z out of range"⟩) else .ok (0, s)) Slot.empty 0
+    = .ok ((0, Slot.full ⟨1, "Z out of range"⟩), 0) := by
+  refine cp_element_fails_fixed _ _ _ rfl _ [(1, 0.004)] [] 101 0.996 rfl (fun _ => 0) ?_ _ ⟨by decide, by decide, by simp [Slot.withErr]⟩
+  intro p hp; simp at hp; subst hp; simp
+
+theorem cp_fails_full_fixed : FailsFull cpOfFixed := by
+  intro f r els error live he hc hr ⟨q, hq, hfail⟩
+  let v := fun Z => valOf (f Z) Slot.empty
+  rcases first_bad (fun p : Int × ℝ => f p.1 Slot.empty = .ok (v p.1, Slot.empty)) els with hall | ⟨pre, ⟨Z, w⟩, post, rfl, hpre, hbad⟩
+  · exfalso
+    obtain ⟨e, he1, he2, he3⟩ := hfail Slot.empty rfl
+    have := hall q hq
+    rw [he3] at this
+    simp [Slot.withErr] at this
+  · rcases hc Z Slot.empty rfl with ⟨x, hx⟩ | ⟨e, hf⟩
+    · exact absurd (by simpa [v, valOf_ok hx] using hx) hbad
+    · have h := cp_element_fails_fixed f error live he r pre post Z w hr v hpre e hf
+      refine ⟨e, hf.1, hf.2.1, ?_⟩
+      rw [h]; simp [val, Except.map, zero_lit]
+
+/-- repaired body: released on every exit -/
+theorem cp_temporaries_released_fixed (hc : ∀ Z, Contract (f Z)) (he : error.isFull = false) (parse : Option (Parsed ℝ)) (nist : Option (Nist ℝ)) :
+    ∃ x, cpFixed parse nist f error live = .ok (x, live) := by
+  unfold cpFixed
+  cases hr : (resolve parse nist).elements with
+  | none => unfold cpOfFixed; simp only [hr, setErr_notFull he, bind_ok, pure_eq_ok]; exact ⟨_, rfl⟩
+  | some els =>
+    let v := fun Z => valOf (f Z) Slot.empty
+    rcases first_bad (fun p : Int × ℝ => f p.1 Slot.empty = .ok (v p.1, Slot.empty)) els with hall | ⟨pre, ⟨Z, w⟩, post, rfl, hpre, hbad⟩
+    · unfold cpOfFixed
+      simp only [hr, cpLoopFixed_value f error v els _ hall, bind_ok, pure_eq_ok, release_alloc]; exact ⟨_, rfl⟩
+    · rcases hc Z Slot.empty rfl with ⟨x, hx⟩ | ⟨e, hf⟩
+      · exact absurd (by simpa [v, valOf_ok hx] using hx) hbad
+      · exact ⟨_, cp_element_fails_fixed f error live he _ pre post Z w hr v hpre e hf⟩
 
 end cp
 
